@@ -72,8 +72,10 @@ func c09Doc(feature int, v string, n int) map[string]any {
 		s["logging"] = map[string]any{"driver": "d", "options": map[string]any{"o": v}}
 		s["sysctls"] = []any{"net.a=" + v}
 		s["tmpfs"] = []any{"/run", "/x" + v}
-		s["x-custom"] = map[string]any{"k": v}
-		doc["x-top"] = []any{v}
+		// extension values are opaque: keys that look like extensions inside them stay where they are
+		s["x-custom"] = map[string]any{"k": v, "x-inner": v, "l": []any{map[string]any{"x-deep": v}}}
+		doc["x-top"] = []any{v, map[string]any{"x-in-list": v}}
+		doc["x-meta"] = map[string]any{"x-inner": map[string]any{"x-innermost": v}}
 	case 11: // external resources and names
 		doc["networks"] = map[string]any{"ext": map[string]any{"external": true, "name": "n" + v}}
 		doc["volumes"] = map[string]any{"ev": map[string]any{"external": true}}
